@@ -16,6 +16,8 @@ COUNTERS = {
                 'resource-rowcount': 'rows', 'resource-bytes': 'size', 'resource-hash': 'md5'},
     'dotted': {'datapackage-rowcount': 'stats.rows', 'datapackage-bytes': 'stats.bytes', 'datapackage-hash': 'stats.hash',
                'resource-rowcount': 'stats.rows', 'resource-bytes': 'stats.bytes', 'resource-hash': 'stats.hash'},
+    'dotted2': {'datapackage-rowcount': 'meta.stats.rows', 'datapackage-bytes': 'meta.stats.bytes', 'datapackage-hash': 'meta.stats.hash',
+                'resource-rowcount': 'meta.stats.rows', 'resource-bytes': 'meta.file.bytes', 'resource-hash': 'meta.file.md5'},
     'no-dp-rowcount': {'datapackage-rowcount': None}, 'no-dp-bytes': {'datapackage-bytes': None},
     'no-dp-hash': {'datapackage-hash': None}, 'no-res-rowcount': {'resource-rowcount': None},
     'no-res-bytes': {'resource-bytes': None}, 'no-res-hash': {'resource-hash': None},
